@@ -115,6 +115,8 @@ def run(ctx):
                 why = "result differs from the input in more than 4k cells"
             elif k == 0 and not np.array_equal(out, m):
                 why = "k = 0 does not return an equal copy"
+            elif r[1] is mm or (isinstance(r[1], np.ndarray) and np.shares_memory(r[1], mm)):
+                why = "the result shares memory with the caller's matrix (writing to the result would change the input)"
             elif gstate() != st0:
                 why = "numpy's global random state was advanced by a seeded call"
             if why is None:
